@@ -7,6 +7,7 @@ import (
 	"fmt"
 	"net"
 	"os"
+	"strings"
 	"sync"
 	"time"
 
@@ -225,4 +226,94 @@ func crashDuringRetryScenario(e *Env, basePort int) {
 		e.violate("replication-incomplete-after-restart", fmt.Sprintf("A crashed right after marking a retry round towards the unreachable B as in flight and was reopened on that store state; B is up again and still configured: A has [%s], B has [%s]", want, dumpCol(ctx, b.x, "User", "name age")), replay)
 	}
 	e.count("crash_during_retry_scenario")
+}
+
+// failureDuringRetryMarkScenario (C15): while the target is unreachable a second document fails to be pushed at the
+// moment the retry loop marks the retry record; the transaction that records the document for retry has read the
+// record and is held until the loop has written its mark (a schedule of the two goroutines of the real node). Whatever
+// the outcome of that transaction, the document must reach the target once it is reachable.
+func failureDuringRetryMarkScenario(e *Env, basePort int) {
+	ctx := context.Background()
+	_, akey, _ := ed25519.GenerateKey(nil)
+	opts := []node.Option{node.WithDisableP2P(false), netConfig.WithListenAddresses(fmt.Sprintf("/ip4/127.0.0.1/tcp/%d", basePort)),
+		netConfig.WithPrivateKey(akey), netConfig.WithEnablePubSub(true), netConfig.WithRetryInterval([]time.Duration{300 * time.Millisecond})}
+	_, bkey, _ := ed25519.GenerateKey(nil)
+	bdir, err := os.MkdirTemp("/var/tmp", "vreplf")
+	if err != nil {
+		panic(err)
+	}
+	b := &p2pNode{name: "B", dir: bdir, port: basePort + 1, key: bkey}
+	defer func() {
+		b.close(ctx)
+		os.RemoveAll(bdir)
+	}()
+	var desc []string
+	replay := map[string]any{"events": &desc}
+	ax, ctl, _ := newTracedNode(ctx, "A", opts...)
+	ax.noEvents()
+	defer ax.close(ctx)
+	if err := b.open(ctx); err != nil {
+		e.violate("harness-repl", "open B: "+err.Error(), replay)
+		return
+	}
+	sdl := `type User { name: String age: Int }`
+	ax.addSchema(ctx, sdl)
+	b.x.addSchema(ctx, sdl)
+	if err := ax.n.Peer.SetReplicator(ctx, b.x.n.Peer.PeerInfo()); err != nil {
+		e.violate("harness-repl", "SetReplicator: "+err.Error(), replay)
+		return
+	}
+	ax.gql(ctx, `mutation { create_User(input: {name: "first", age: 1}) { _docID } }`)
+	desc = append(desc, "A: SetReplicator(B)", "A: create User first")
+	want := dumpCol(ctx, ax, "User", "name age")
+	waitUntil(15*time.Second, func() bool { return dumpCol(ctx, b.x, "User", "name age") == want })
+	b.close(ctx)
+	desc = append(desc, "B: down")
+	ax.gql(ctx, `mutation { create_User(input: {name: "second", age: 2}) { _docID } }`)
+	desc = append(desc, "A: create User second (push fails, the retry record is created)")
+	// wait until the record exists
+	waitUntil(10*time.Second, func() bool {
+		for k := range ax.scan(ctx, "/db/ps/") {
+			if strings.Contains(k, "/rep/retry/id/") {
+				return true
+			}
+		}
+		return false
+	})
+	marked := make(chan struct{}, 1)
+	var once, held sync.Once
+	ctl.onSet = func(k, v []byte) {
+		if bytes.Contains(k, []byte("/rep/retry/id/")) && bytes.Contains(v, append([]byte("Retrying"), 0xf5)) {
+			once.Do(func() { marked <- struct{}{} })
+		}
+	}
+	heldOnce := false
+	ctl.onTxnRead = func(k []byte) {
+		if bytes.Contains(k, []byte("/rep/retry/id/")) {
+			held.Do(func() {
+				heldOnce = true
+				select {
+				case <-marked:
+				case <-time.After(6 * time.Second):
+				}
+			})
+		}
+	}
+	ax.gql(ctx, `mutation { create_User(input: {name: "third", age: 3}) { _docID } }`)
+	desc = append(desc, "A: create User third (push fails; the transaction recording it for retry is held after reading the retry record until the retry loop has marked the record)")
+	time.Sleep(8 * time.Second)
+	ctl.onSet, ctl.onTxnRead = nil, nil
+	e.count(fmt.Sprintf("failure_handler_held_%v", heldOnce))
+	if err := b.open(ctx); err != nil {
+		e.violate("harness-repl", "reopen B: "+err.Error(), replay)
+		return
+	}
+	desc = append(desc, "B: up")
+	want = dumpCol(ctx, ax, "User", "name age")
+	conv := waitUntil(30*time.Second, func() bool { return dumpCol(ctx, b.x, "User", "name age") == want })
+	e.Res.Evaluations++
+	if !conv {
+		e.violate("replication-incomplete", fmt.Sprintf("a document failed to be pushed while the retry loop marked the retry record; B is up again: A has [%s], B has [%s]", want, dumpCol(ctx, b.x, "User", "name age")), replay)
+	}
+	e.count("failure_during_retry_mark_scenario")
 }
